@@ -249,19 +249,24 @@ Fixpoint nodup_keys (l : list str) : bool :=
   | k :: r => negb (existsb (fun k' => str_eqb k k') r) && nodup_keys r
   end.
 
-(* guards for the two families of defects of the unchanged code *)
+(* the URLs the property speaks about: a driver name the pattern accepts, text components that can be
+   UTF-8 encoded (Unicode scalar values, otherwise arbitrary), a syntactically valid host, any integer
+   port, a query dict (unique keys) *)
+Definition domain (uw : N -> bool) (u : url) : bool :=
+  negb (is_nil (u_drv u)) && forallb (wordch uw) (u_drv u)
+  && opt_all scalar (u_user u) && opt_all scalar (u_pass u) && opt_all scalar (u_db u)
+  && forallb (fun kv => forallb scalar (fst kv) && qval_all scalar (snd kv)) (u_query u)
+  && host_ok (u_host u)
+  && nodup_keys (map fst (u_query u)).
+
+(* guards excluding the defects of the unchanged code: a password without a username is not rendered;
+   a sequence value of length 1 comes back as a plain string, one of length 0 loses its key *)
 Definition seq_len_ok (v : qval) : bool :=
   match v with QStr _ => true | QSeq l => (2 <=? length l)%nat end.
 Definition password_has_user (u : url) : bool := negb (has_some (u_pass u)) || has_some (u_user u).
 
 Definition wf (uw : N -> bool) (u : url) : bool :=
-  negb (is_nil (u_drv u)) && forallb (wordch uw) (u_drv u)
-  && opt_all scalar (u_user u) && opt_all scalar (u_pass u) && opt_all scalar (u_db u)
-  && forallb (fun kv => forallb scalar (fst kv) && qval_all scalar (snd kv)) (u_query u)
-  && host_ok (u_host u)
-  && nodup_keys (map fst (u_query u))
-  && password_has_user u
-  && forallb (fun kv => seq_len_ok (snd kv)) (u_query u).
+  domain uw u && password_has_user u && forallb (fun kv => seq_len_ok (snd kv)) (u_query u).
 
 (* dict equality does not look at the insertion order: the canonical representative lists the keys in
    sorted order (which is the order in which they are rendered and therefore parsed back) *)
